@@ -1003,14 +1003,14 @@ def callee_expr(call):
     return e if isinstance(e, (ast.Attribute, ast.Name)) else call.func
 
 
-def case_reach(cfg, p, case_cls, anc, stopping, sinks, flag_eval=None):
+def case_reach(cfg, p, case_cls, anc, stopping, sinks, flag_eval=None, start=None):
     """Is a node of `sinks` reachable from the entry when the handler runs for a failure of class `case_cls` with
     `self._stopping == stopping`?  Branches whose test evaluates (three-valued) under that case are pruned; boolean
     locals assigned from evaluable expressions are tracked along each path, so a test on a temporary or on the result
     of an inlined predicate helper prunes as the expression itself would."""
     ev = flag_eval or _eval_flag
     seen = set()
-    stack = [(cfg.entry.id, ())]
+    stack = [(x_, ()) for x_ in (start if start is not None else [cfg.entry.id])]
     while stack:
         x, envt = stack.pop()
         if (x, envt) in seen:
